@@ -564,7 +564,7 @@ impl<'a> Socket<'a> {
                 };
 
                 // Check timeout
-                if timeout < cx.now() {
+                if timeout <= cx.now() {
                     // DNS timeout
                     pq.timeout_at = Some(cx.now() + RETRANSMIT_TIMEOUT);
                     pq.retransmit_at = Instant::ZERO;
@@ -660,7 +660,12 @@ impl<'a> Socket<'a> {
             .iter()
             .flatten()
             .filter_map(|q| match &q.state {
-                State::Pending(pq) => Some(PollAt::Time(pq.retransmit_at)),
+                // dispatch() acts both on the retransmission time and on the
+                // per-server timeout (it then queries the next server at once).
+                State::Pending(pq) => Some(PollAt::Time(match pq.timeout_at {
+                    Some(timeout_at) => pq.retransmit_at.min(timeout_at),
+                    None => pq.retransmit_at,
+                })),
                 State::Completed(_) => None,
                 State::Failure => None,
             })
